@@ -6,6 +6,7 @@ import TableauVerif.Model.Types
 import TableauVerif.Model.Protogen
 import TableauVerif.Spec.C17
 import TableauVerif.Spec.C15
+import TableauVerif.Spec.C07
 import TableauVerif.Model.XmlDoc
 namespace Driver
 open TableauVerif TableauVerif.Model TableauVerif.Model.Types TableauVerif.Model.Protogen
@@ -59,7 +60,8 @@ def decRow? (s : String) : Option (List Str) :=
 def renderRes (r : PRes (List PField)) : String :=
   match r with
   | .ok fs => "ok " ++ renderFields fs
-  | .error (.err _) => "err"
+  | .error (.err _ (some cur)) => s!"err {cur}"
+  | .error (.err _ none) => "err ?"
   | .error .unmodelled => "unmodelled"
   | .error .fuel => "unmodelled"
 
@@ -121,7 +123,7 @@ partial def parseFieldsR (cs : List Char) (acc : List PField) : Option (List PFi
 
 /-- an observation `ok <fields>` / `err` back to a result -/
 def decPGRes? (s : String) : Option (PRes (List PField)) :=
-  if s == "err" then some (.error (.err "impl")) else
+  if s.startsWith "err" then some (.error (.err "impl")) else
   if s == "unmodelled" then some (.error .unmodelled) else
   if s.startsWith "ok " then
     match parseFieldsR (s.drop 3).toString.toList [] with
@@ -207,6 +209,20 @@ def pg (fn : String) (a : List String) : Option String := do
   | "pg.header", [pkg, infos, nested, names, types] =>
     let c : Ctx := ⟨← decStr? pkg, ← decInfos? infos, ← decBool? nested⟩
     some (renderRes (parseSheet c (Header.ofRows (← decRow? names) (← decRow? types))))
+  | "pg.errpos", [pkg, infos, nested, names, types, _] =>
+    let c : Ctx := ⟨← decStr? pkg, ← decInfos? infos, ← decBool? nested⟩
+    match parseSheet c (Header.ofRows (← decRow? names) (← decRow? types)) with
+    | .ok _ => some "ok"
+    | .error (.err _ (some cur)) => some s!"err {cur}"
+    | .error (.err _ none) => some "err ?"
+    | .error .unmodelled => some "unmodelled"
+    | .error .fuel => some "unmodelled"
+  | "o.pg.errpos", [_, _, _, _, _, k, obs] =>
+    let k ← k.toNat?
+    if obs == "ok" then some (Spec.C07.holdsHeaderPos k none).toString else
+    match obs.splitOn " " with
+    | ["err", c] => some (Spec.C07.holdsHeaderPos k (some (← c.toNat?))).toString
+    | _ => none
   | "c15.append", [pkg, infos, nested, names, types, addN, addT] =>
     let c : Ctx := ⟨← decStr? pkg, ← decInfos? infos, ← decBool? nested⟩
     let n ← decRow? names; let t ← decRow? types; let an ← decRow? addN; let at' ← decRow? addT
